@@ -49,12 +49,17 @@ package util
 //@   modifies main[start:]
 //@   ensures  ref(result) == ref(main) && off(result) == off(main) && len(result) == start + min(len(main) - start, len(tail))
 //@   ensures  forall i int :: 0 <= i && i < len(result) - start ==> result[start + i] == tail[i]
+//@   ensures[tail-copied-whole-when-it-fits] len(main) - start >= len(tail) ==> string(result[start:]) == tail
 
 // CleanUTF8(s): s up to and including its last ASCII byte, followed by the valid remainder of the tail (C09: "cut at a
 // valid UTF-8 boundary"); never longer than s; written in place
+// cleanfrom: ghost - the end of the last ASCII byte (where the cleaned tail begins)
+//@ ghost var cleanfrom int
 //@ func CleanUTF8(s []byte) []byte
 //@   flag counted
-//@   modifies s[:]
+//@   modifies s[:], cleanfrom
+//@   ghostset cleanfrom := endPos
+//@   ensures[!tail-after-the-last-ascii-byte-is-valid-utf8] len(s) > 0 ==> 0 <= cleanfrom && cleanfrom <= len(result) && validUTF8(string(result[cleanfrom:]))
 //@   ensures  ref(result) == ref(s) && off(result) == off(s) && len(result) <= len(s)
 //@   ensures[ascii-kept]  forall i int :: 0 <= i && i < len(s) && old(s[i]) <= 127 ==> i < len(result)
 //@   ensures[prefix-unchanged] forall i int, k int :: 0 <= i && i <= k && k < len(s) && old(s[k]) <= 127 ==> result[i] == old(s[i])
